@@ -291,7 +291,7 @@ def template_body_pipeline(rep: C.Report, pid: str = "C04") -> None:
             ob.verdict, ob.detail = C.NOT_ENCODABLE, "_template_to_body not found"
             return
         fn = fns[0]
-        ps = PS.passes(fn)
+        ps = PS.passes(fn, tree)
         import re as _re
 
         def role(sample: str, want: str, flags_any: bool = True):
